@@ -17,19 +17,17 @@ class UnitType:
     def convert(self, magnitude1):
         if not hasattr(self, self.conversion[0]):
                 raise Exception('Conversion method is not implemented:', self.conversion[0])
-        if isinstance(magnitude1.value, Decimal) or \
-           isinstance(self.baseunits1.magnitude, Decimal) or \
-           isinstance(self.baseunits2.magnitude, Decimal):
-            magnitude1.value = Decimal(magnitude1.value)
-            self.baseunits1.magnitude = Decimal(self.baseunits1.magnitude)
-            self.baseunits2.magnitude = Decimal(self.baseunits2.magnitude)
+        # (the operand and the two unit objects are shared with other quantities: they are read, never rewritten)
+        value, factor1, factor2 = magnitude1.value, self.baseunits1.magnitude, self.baseunits2.magnitude
+        if isinstance(value, Decimal) or isinstance(factor1, Decimal) or isinstance(factor2, Decimal):
+            value, factor1, factor2 = Decimal(value), Decimal(factor1), Decimal(factor2)
         error = magnitude1.error
         if error is not None and self.conversion[0]=="_convert_linear":
             # linear conversions scale the absolute error by the same factor as the value
-            factor = self.baseunits1.magnitude / self.baseunits2.magnitude
+            factor = factor1 / factor2
             error = error * (Decimal(factor) if isinstance(error, Decimal) else float(factor))
         return Magnitude(
-            getattr(self, self.conversion[0])(magnitude1.value * self.baseunits1.magnitude, *self.conversion[1:]) / self.baseunits2.magnitude,
+            getattr(self, self.conversion[0])(value * factor1, *self.conversion[1:]) / factor2,
             error
         )
         
